@@ -387,6 +387,7 @@ void beginUnit(const vf::Scenario& sc, History& h) {
     g_allocFailAt.clear();
 }
 void setTTYield(bool on) { g_ttYield = on; }
+long bestmovesSoFar() { return g_out ? g_out->bestmoves : 0; }
 
 void runSession(const vf::Scenario& sc, History& h, vf::Result& res) {
     H = &h;
